@@ -30,6 +30,17 @@ from vf import exclusions as _ex
 EXCLUDE = _ex.RAISES
 
 
+# configurations a collection may be built under / materialised under (chunk unification is decided
+# at construction for the advertised layout and again at lowering for the graph)
+CFGS = [
+    {},
+    {"array.unify-chunks-policy": "refine"},
+    {"array.unify-chunks-policy": "coarse"},
+    {"array.unify-chunks-limit": "32B"},
+    {"array.chunk-size": "64B"},
+]
+
+
 def check_array(x, tag):
     """[(bucket, detail)] for one collection."""
     fails = []
@@ -83,11 +94,18 @@ def check(case, vals=None):
     fails, labs = [], []
     refused = False
     maxblocks = 0
+    cfg_build = CFGS[case.get("cfg_build", 0)]
+    cfg_graph = CFGS[case.get("cfg_graph", 0)]
+    if cfg_build != cfg_graph:
+        labs.append("config-differs-between-build-and-graph")
     for og in (True, False):
-        with dask.config.set({"array.optimize-graph": og}):
+        with dask.config.set(cfg_build):
             vars_, status = progrun.build_or_reject(prog)
             if vars_ is None:
                 return status, [], []
+            for v in vars_:
+                v.chunks  # advertised layout is fixed under the construction-time configuration
+        with dask.config.set({"array.optimize-graph": og, **cfg_graph}):
             L = len(prog["leaves"])
             for k in range(L, len(vars_)):
                 x = vars_[k]
@@ -125,8 +143,17 @@ def nontrivial(case, labels):
     return "blocks>=4" in labels or "bridge-rechunk-under-rootalias" in labels
 
 
+def _cfg_choice(prog):
+    """Configuration pair as a pure function of the program (half of the cases use the defaults twice)."""
+    h = int(util.h64(prog), 16)
+    if h % 2 == 0:
+        return {"cfg_build": 0, "cfg_graph": 0}
+    h //= 2
+    return {"cfg_build": h % len(CFGS), "cfg_graph": (h // len(CFGS)) % len(CFGS)}
+
+
 def run_shard(spec, seed):
-    return progrun.run_program_shard(spec, seed, check, nontrivial, exclude_only=EXCLUDE)
+    return progrun.run_program_shard(spec, seed, check, nontrivial, exclude_only=EXCLUDE, case_extra=_cfg_choice)
 
 
 def plan(tier):
